@@ -12,7 +12,7 @@ combined (`CanonSet`).  `denS s ver a` — address `a` of family `ver` is denote
 `canonset_ext` (Lemmas/CanonSetL) is the uniqueness theorem: two such block sets with the
 same denotation have the same members.
 -/
-import NetaddrVerif.Lemmas.IPSetL10
+import NetaddrVerif.Lemmas.IPSetL11
 namespace NV.C06
 open NV NV.IPSet
 
@@ -150,6 +150,38 @@ theorem update_set_spec (s t : St) (hs : ∀ n ∈ s, n.WF) (ht : ∀ n ∈ t, n
 theorem update_list_spec (s : St) (hs : ∀ n ∈ s, Good n) (xs : List Arg) (hx : ∀ x ∈ xs, ArgOK x) :
     Inv (updateList s xs) ∧ ∀ u a, denS (updateList s xs) u a ↔ denS s u a ∨ argsDen xs u a :=
   updateList_spec s hs xs hx
+
+/-- **Every reachable state.**  After ANY finite history over any number of live sets —
+    constructors from a network / range / set / list, `add`, both `update` forms, `clear`,
+    `pop`, `compact`, `copy`/pickling, and the results of `|` and `&` — every live set is
+    canonical (`Inv`) and denotes exactly the (version, address) pairs that plain set theory
+    assigns to that history (`specStep`).  Induction over the history; one `step_rel` case
+    per operation.
+
+    PARTIAL: `Op.OK` excludes `remove`, `-` and `^`.  The full statement is this theorem
+    with `Op.OK` only demanding well-formed arguments; what is missing is the step case for
+    those three operations (their specifications are stated in `specStep`, `combine`); they
+    are tied by correspondence and the oracle only. -/
+theorem reachable_partial (ops : List Op) (hok : ∀ op ∈ ops, op.OK) :
+    ∀ i, Inv (getSet (runOps ops) i) ∧
+      ∀ u a, denS (getSet (runOps ops) i) u a ↔ (runBoth ops).2 i u a := by
+  have := history_rel ops hok
+  rw [runBoth_fst] at this
+  exact this
+
+/-- consequently, two sets reached by any two (covered) histories compare equal iff the
+    histories denote the same addresses, and then they show the same list -/
+theorem reachable_eq_iff (ops₁ ops₂ : List Op) (h₁ : ∀ op ∈ ops₁, op.OK) (h₂ : ∀ op ∈ ops₂, op.OK) (i j : Nat) :
+    IPSet.eq (getSet (runOps ops₁) i) (getSet (runOps ops₂) j) = true ↔
+      ∀ u a, (runBoth ops₁).2 i u a ↔ (runBoth ops₂).2 j u a := by
+  obtain ⟨i1, d1⟩ := reachable_partial ops₁ h₁ i
+  obtain ⟨i2, d2⟩ := reachable_partial ops₂ h₂ j
+  rw [eq_iff _ _ i1 i2]
+  constructor
+  · intro h u a; rw [← d1 u a, ← d2 u a]; exact h u a
+  · intro h u a; rw [d1 u a, d2 u a]; exact h u a
+
+example : (Op.add 0 (.net ⟨4, 0x0a000005, 24⟩)).OK := by simp [Op.OK, ArgOK, Net.WF, width]
 
 /-! ### non-vacuity -/
 example : (⟨4, 0x0a000005, 24⟩ : Net).WF := by simp [Net.WF, width]
